@@ -175,6 +175,30 @@ fn fixtures(env: &mut Env) -> &'static Fixtures {
 
 const PRIORS: [&str; 14] = ["other-patch-version-other-index", "other-build-suffix-other-index", "absent", "current", "other-version", "other-data", "meta-missing", "meta-empty", "meta-braces", "meta-array", "meta-garbage", "index-missing", "index-without-tantivy-meta", "other-hash"];
 
+/// meta.json contents that are well-formed JSON of the wrong shape or type (`@V@`/`@H@` stand for
+/// the current version / hash). None of them is a valid record of a current index except the
+/// last two, which a tool may either trust or rebuild from - the answers decide.
+const META_SHAPES: [&str; 18] = [
+    "null",
+    "15",
+    "true",
+    "\"@V@\"",
+    "[0, 1, 5]",
+    "[\"@V@\", \"@H@\"]",
+    "{\"version\": 15, \"database_hash\": \"@H@\"}",
+    "{\"version\": [\"0\", \"1\"], \"database_hash\": \"@H@\"}",
+    "{\"version\": {\"major\": 0}, \"database_hash\": \"@H@\"}",
+    "{\"version\": \"@V@\", \"database_hash\": 12345}",
+    "{\"version\": \"@V@\", \"database_hash\": null}",
+    "{\"version\": null, \"database_hash\": \"@H@\"}",
+    "{\"version\": \"@V@\"}",
+    "{\"database_hash\": \"@H@\"}",
+    "{\"version\": \"0.0.0\", \"version\": \"@V@\", \"database_hash\": \"@H@\"}",
+    "{\"Version\": \"@V@\", \"DATABASE_HASH\": \"@H@\"}",
+    "{\"version\": \"@V@\", \"database_hash\": \"@H@\", \"extra\": [1, 2, {\"a\": null}]}",
+    " {\n  \"database_hash\" : \"@H@\" ,\n  \"version\" : \"@V@\"\n}\n",
+];
+
 fn make_prior(fx: &Fixtures, prior: &str, data: &Path) {
     let cur = fx.root.join("tpl-current/data");
     let meta = data.join("facts/meta.json");
@@ -215,6 +239,13 @@ fn make_prior(fx: &Fixtures, prior: &str, data: &Path) {
                 "meta-garbage" => std::fs::write(&meta, "\u{0}\u{1}garbage{{").unwrap(),
                 "index-missing" => std::fs::remove_dir_all(data.join("facts/index")).unwrap(),
                 "index-without-tantivy-meta" => std::fs::remove_file(data.join("facts/index/meta.json")).unwrap(),
+                x if x.starts_with("meta-shape-") => {
+                    let k: usize = x["meta-shape-".len()..].parse().unwrap();
+                    let cur: serde_json::Value = serde_json::from_str(&fx.current_meta).unwrap();
+                    let text = META_SHAPES[k].replace("@V@", cur["version"].as_str().unwrap_or("")).replace("@H@", cur["database_hash"].as_str().unwrap_or(""));
+                    std::fs::write(&meta, text).unwrap();
+                }
+                x if x.starts_with("meta-shape-noindex-") => unreachable!(),
                 x if x.starts_with("meta-prefix-") => {
                     let k: usize = x["meta-prefix-".len()..].parse().unwrap();
                     std::fs::write(&meta, &fx.current_meta.as_bytes()[..k.min(fx.current_meta.len())]).unwrap();
@@ -260,7 +291,7 @@ impl Prop for C15 {
         120
     }
     fn rule(&self) -> String {
-        "prior directory states: absent; complete and current; written by another version (a foreign major version; the next patch version or a build suffix over an index with other content and the current data hash); written for other data (built by the real code through the asset seam); other hash; meta.json missing / empty / {} / [] / garbage / every proper prefix of the valid bytes; index directory missing under a current meta.json; index directory without tantivy's own meta.json. Each prior state x two crash-free starts (family start). Crash enumeration (family crash): prior state x every crash point N = 1..N_max of the real start under the LD_PRELOAD shim (process SIGKILLed before its N-th file-system mutation; quick: absent, other-data, index-missing and index-without-tantivy-meta priors, every point; thorough: eight priors, every point, each write also torn after half and after all-but-one byte), then: meta.json current => index complete (opened independently with tantivy), then two crash-free starts that must answer the probe set exactly like Db::in_memory(). Thorough adds second crashes (15 representative points) on every 10th first-level crash state. Non-trivial = the start performed at least one mutation before it was killed / a prior state other than `current`; distinct = distinct (prior, N, torn)".into()
+        "prior directory states: absent; complete and current; written by another version (a foreign major version; the next patch version or a build suffix over an index with other content and the current data hash); written for other data (built by the real code through the asset seam); other hash; meta.json missing / empty / {} / [] / garbage / every proper prefix of the valid bytes / 18 well-formed JSON documents of the wrong shape or type (null, a number, a list, `version` a number / list / object, a numeric or null hash, a missing or duplicated key, keys in another case, extra fields, other whitespace and key order); index directory missing under a current meta.json; index directory without tantivy's own meta.json. Each prior state x two crash-free starts (family start). Crash enumeration (family crash): prior state x every crash point N = 1..N_max of the real start under the LD_PRELOAD shim (process SIGKILLed before its N-th file-system mutation; quick: absent, other-data, index-missing and index-without-tantivy-meta priors, every point; thorough: eight priors, every point, each write also torn after half and after all-but-one byte), then: meta.json current => index complete (opened independently with tantivy), then two crash-free starts that must answer the probe set exactly like Db::in_memory(). Thorough adds second crashes (15 representative points) on every 10th first-level crash state. Non-trivial = the start performed at least one mutation before it was killed / a prior state other than `current`; distinct = distinct (prior, N, torn)".into()
     }
     fn assumptions(&self) -> Vec<String> {
         vec![
@@ -275,6 +306,9 @@ impl Prop for C15 {
         }
         for k in 0..80 {
             sink(Case::with("start", format!("prior=meta-prefix-{k}"), serde_json::json!({"prior": format!("meta-prefix-{k}")})));
+        }
+        for k in 0..META_SHAPES.len() {
+            sink(Case::with("start", format!("prior=meta-shape-{k}"), serde_json::json!({"prior": format!("meta-shape-{k}")})));
         }
         let crash_priors: Vec<&str> = match tier {
             Tier::Quick => vec!["absent", "other-data", "index-without-tantivy-meta", "index-missing"],
@@ -384,7 +418,7 @@ impl Prop for C15 {
         fw::pass(nontrivial, fw::hash_str(prior))
     }
     fn bounds(&self, tier: Tier) -> serde_json::Value {
-        serde_json::json!({"crash_points_cap": NCAP, "prior_states": PRIORS.len() + 80, "crash_priors": tier.pick(4, 8), "torn_variants": tier.pick(0, 2), "second_crash": tier == Tier::Thorough})
+        serde_json::json!({"crash_points_cap": NCAP, "prior_states": PRIORS.len() + 80 + META_SHAPES.len(), "crash_priors": tier.pick(4, 8), "torn_variants": tier.pick(0, 2), "second_crash": tier == Tier::Thorough})
     }
 }
 
